@@ -1,13 +1,674 @@
 package main
 
+// C13 — servers answer every request without panicking; malformed input gets
+// 4xx.
+//
+// Decided (necessary structural clauses): every request-caused error origin
+// that can reach ServeError carries a 4xx label (E3); explicit panics
+// reachable from the handlers equal a reviewed table whose mechanical
+// justifications are re-checked; optional pointers and constant indexes on
+// request-decoded structures are guarded; input-driven recursion carries a
+// depth bound; fallible parse calls have their error checked before the
+// value is used and before any mutating backend call.
+// Not decided: panics inside encoding/xml, go-ical, go-vcard, net/http.
+
+import (
+	"fmt"
+	"go/token"
+	"go/types"
+	"sort"
+	"strings"
+
+	"golang.org/x/tools/go/ssa"
+)
+
 func init() { register("C13", runC13) }
 
 func runC13(c *Ctx, pr *PropertyRun) {
-	pr.Explanation = "stub"
-	r := NewRule("C13", "C13.stub", "stub")
-	cg := c.CG()
-	seen := cg.Reach(c.P.serverEntries(), nil)
-	r.Count("reachable", len(seen))
-	r.Ob(true)
-	pr.Rules = append(pr.Rules, r)
+	pr.Explanation = "Decided (necessary structural clauses): (1) every error origin caused by the request (a parse/decode failure of request data, or an error constructed under a request-dependent condition) that can reach ServeError/http.Error is labelled with a 4xx status; " +
+		"(2) the explicit panic statements reachable from the three handlers and ServePrincipal equal a reviewed table, and the mechanical part of each justification is re-checked; (3) every dereference of an optional (pointer) field of a request-decoded wire struct and every constant index is dominated by its guard; " +
+		"(4) every call-graph cycle that reads from an input stream carries a depth bound; (5) the error of every fallible parse of request data is tested before its value is used, and these tests dominate the first mutating backend call. " +
+		"NOT decided: panics inside encoding/xml, go-ical, go-vcard, net/http; implicit panics outside the two guard rules; that a response is complete."
+	pr.Assumptions = append(pr.Assumptions,
+		"call graph: static callees + CHA for interface calls, plus explicit edges from xml encode/decode calls to every module (Un)MarshalXML/(Un)MarshalText method (encoding/xml calls them by reflection)",
+		"http.ResponseWriter, *http.Request and the options handed to exported entry points are non-nil")
+	pr.Trusted = append(pr.Trusted, "golang.org/x/tools/go/ssa v0.29.0", "golang.org/x/tools/go/callgraph/cha")
+
+	c13Panics(c, pr, "C13", c.P.serverEntries(), map[string]string{
+		"(*internal.RawXMLValue).TokenReader": "marshal-only values (field out != nil) are created only by EncodeRawXMLElement and only ever encoded; mechanical part: who writes field out",
+		"(*internal.RawXMLValue).MarshalXML":  "field tok never holds an xml.EndElement; mechanical part: every store into tok is a StartElement or a CopyToken of a token that failed the EndElement type test",
+	})
+	c13Recursion(c, pr, "C13", c.P.serverEntries())
+	c13Guards(c, pr, "C13", c.P.serverEntries())
+	c13ParseChecked(c, pr)
+	c13ReqErrors(c, pr)
 }
+
+func moduleOnly(p *Program) func(*ssa.Function) bool {
+	return func(fn *ssa.Function) bool { return p.InModule(fn) }
+}
+
+// ---------------------------------------------------------------------------
+// explicit panics
+
+func c13Panics(c *Ctx, pr *PropertyRun, prop string, entries []*ssa.Function, justified map[string]string) {
+	p := c.P
+	r := NewRule(prop, prop+".no-explicit-panic", "explicit panic statements reachable from the entry points equal the reviewed table; each entry's mechanical justification is re-checked (E7 PANIC-REACH)")
+	pr.Rules = append(pr.Rules, r)
+	if len(entries) == 0 {
+		r.Unresolved("no entry points resolved")
+		return
+	}
+	cg := c.CG()
+	ctl := controlFuncs(p, pkgInternal, "zzVerifControlPanic")
+	seen := cg.Reach(append(append([]*ssa.Function{}, entries...), ctl...), moduleOnly(p))
+	r.Count("reachable_module_functions", countIf(seen, p.InModule))
+	total := 0
+	for _, fn := range p.ModFns {
+		if !inLib(fn) {
+			continue
+		}
+		ps := explicitPanics(fn)
+		total += len(ps)
+		if len(ps) == 0 {
+			continue
+		}
+		_, reach := seen[fn]
+		r.Role("explicit-panic")
+		r.Sample(map[string]interface{}{"function": fnKey(fn), "reachable": reach, "pos": p.Pos(ps[0].Pos())})
+		if !reach {
+			r.Ob(true)
+			continue
+		}
+		why, ok := justified[fnKey(fn)]
+		if !ok {
+			r.Ob(false)
+			r.Violation("panic|"+fnKey(fn), p.Pos(ps[0].Pos()), "explicit panic in "+fnKey(fn)+" is reachable from an entry point and is not in the reviewed table; call chain: "+strings.Join(pathTo(seen, fn), " -> "), nil)
+			continue
+		}
+		r.Note("justified: %s — %s", fnKey(fn), why)
+		r.Ob(true)
+	}
+	r.Count("explicit_panics_in_library", total)
+	r.RequireRole("explicit-panic")
+	if p.Control {
+		r.ExpectControl("zzVerifControlPanic")
+	}
+
+	// mechanical justifications
+	raw := p.NamedType(pkgInternal, "RawXMLValue")
+	if raw == nil {
+		r.Unresolved("type internal.RawXMLValue not found")
+		return
+	}
+	// (a) field out: non-nil stores only in EncodeRawXMLElement
+	// (b) field tok: StartElement, or CopyToken of a token that is not EndElement
+	for _, fn := range p.ModFns {
+		if p.isControlFn(fn) {
+			continue
+		}
+		eachInstr(fn, func(b *ssa.BasicBlock, in ssa.Instruction) {
+			st, ok := in.(*ssa.Store)
+			if !ok {
+				return
+			}
+			fa, ok := st.Addr.(*ssa.FieldAddr)
+			if !ok || namedOf(fa.X.Type()) != raw {
+				return
+			}
+			switch fieldName(fa.X.Type(), fa.Field) {
+			case "out":
+				r.Role("store-out")
+				ok := isNilConst(st.Val) || fn.Name() == "EncodeRawXMLElement"
+				r.Ob(ok)
+				if !ok {
+					r.Violation("out-written|"+fnKey(fn), p.instrPos(st), "RawXMLValue.out is given a non-nil value outside EncodeRawXMLElement: a value that is later decoded (Decode/TokenReader) would panic with 'marshal-only XML value'", nil)
+				}
+			case "tok":
+				r.Role("store-tok")
+				ok := tokStoreSafe(st.Val, b)
+				r.Ob(ok)
+				if !ok {
+					r.Violation("tok-endelement|"+fnKey(fn), p.instrPos(st), "RawXMLValue.tok may be assigned an xml.EndElement here (the value is neither an xml.StartElement nor the copy of a token that failed the EndElement type test): MarshalXML panics on such a value", nil)
+				}
+			}
+		})
+	}
+	r.RequireRole("store-out", "store-tok")
+}
+
+func countIf(m map[*ssa.Function]*CGEdge, f func(*ssa.Function) bool) int {
+	n := 0
+	for fn := range m {
+		if f(fn) {
+			n++
+		}
+	}
+	return n
+}
+
+// tokStoreSafe: v is (an interface holding) an xml.StartElement, or
+// xml.CopyToken(t) where t failed `t.(xml.EndElement)` on a dominating edge,
+// or nil/zero.
+func tokStoreSafe(v ssa.Value, at *ssa.BasicBlock) bool {
+	switch x := v.(type) {
+	case *ssa.MakeInterface:
+		return isNamed(x.X.Type(), "encoding/xml", "StartElement")
+	case *ssa.Const:
+		return x.Value == nil
+	case *ssa.Call:
+		if f := x.Call.StaticCallee(); f != nil && fullFnName(f) == "encoding/xml.CopyToken" && len(x.Call.Args) == 1 {
+			return notEndElementAt(x.Call.Args[0], at)
+		}
+	case *ssa.Phi:
+		for _, e := range x.Edges {
+			if !tokStoreSafe(e, at) {
+				return false
+			}
+		}
+		return true
+	}
+	return false
+}
+
+// notEndElementAt: a comma-ok type assertion of t to xml.EndElement exists
+// whose false edge dominates block at.
+func notEndElementAt(t ssa.Value, at *ssa.BasicBlock) bool {
+	for _, ref := range *t.Referrers() {
+		ta, ok := ref.(*ssa.TypeAssert)
+		if !ok || !ta.CommaOk || !isNamed(ta.AssertedType, "encoding/xml", "EndElement") {
+			continue
+		}
+		for _, r2 := range *ta.Referrers() {
+			ex, ok := r2.(*ssa.Extract)
+			if !ok || ex.Index != 1 {
+				continue
+			}
+			for _, r3 := range *ex.Referrers() {
+				if iff, ok := r3.(*ssa.If); ok && edgeDominates(iff.Block(), 1, at) {
+					return true
+				}
+			}
+		}
+	}
+	return false
+}
+
+// ---------------------------------------------------------------------------
+// input-driven recursion
+
+var streamReadCalls = map[string]bool{
+	"(*encoding/xml.Decoder).Token": true, "(*encoding/xml.Decoder).RawToken": true,
+	"(*bufio.Reader).ReadByte": true, "(*bufio.Reader).ReadRune": true, "(*bufio.Reader).ReadString": true,
+}
+
+func readsStream(fn *ssa.Function) (string, bool) {
+	found := ""
+	eachCall(fn, func(site ssa.CallInstruction) {
+		cc := site.Common()
+		n := calleeName(cc)
+		if streamReadCalls[n] {
+			found = n
+		}
+		if cc.IsInvoke() && (cc.Method.Name() == "Read" || cc.Method.Name() == "Token") {
+			// io.Reader.Read / xml.TokenReader.Token on an interface value
+			if cc.Method.Name() == "Read" {
+				found = n
+			}
+		}
+	})
+	return found, found != ""
+}
+
+func c13Recursion(c *Ctx, pr *PropertyRun, prop string, entries []*ssa.Function) {
+	p := c.P
+	r := NewRule(prop, prop+".recursion", "every call-graph cycle reachable from the entry points that reads from an input stream carries a depth bound (E7 INPUT-RECURSION-BOUNDED)")
+	pr.Rules = append(pr.Rules, r)
+	cg := c.CG()
+	ctl := controlFuncs(p, pkgInternal, "zzVerifControlRecurse")
+	seen := cg.Reach(append(append([]*ssa.Function{}, entries...), ctl...), moduleOnly(p))
+	sccs := cg.moduleSCCs(p)
+	r.Count("cycles_in_module", len(sccs))
+	for _, comp := range sccs {
+		inComp := map[*ssa.Function]bool{}
+		reach := false
+		var names []string
+		for _, f := range comp {
+			inComp[f] = true
+			names = append(names, fnKey(f))
+			if _, ok := seen[f]; ok {
+				reach = true
+			}
+		}
+		r.Role("cycle")
+		var reader *ssa.Function
+		what := ""
+		for _, f := range comp {
+			if w, ok := readsStream(f); ok {
+				reader, what = f, w
+				break
+			}
+		}
+		r.Sample(map[string]interface{}{"cycle": names, "reachable": reach, "reads_stream": what})
+		if !reach || reader == nil {
+			r.Ob(true)
+			continue
+		}
+		r.Role("stream-reading-cycle")
+		// every recursive edge inside the component must be depth-guarded
+		ok := true
+		var badSite ssa.CallInstruction
+		for _, f := range comp {
+			for _, e := range cg.Out[f] {
+				if !inComp[e.Callee] || e.Site == nil || e.Kind == "reflect" || e.Kind == "closure" {
+					continue
+				}
+				if !depthGuarded(f, e.Site) {
+					ok = false
+					badSite = e.Site
+				}
+			}
+		}
+		r.Ob(ok)
+		if !ok {
+			r.Violation("unbounded|"+strings.Join(names, ","), p.instrPos(badSite),
+				fmt.Sprintf("recursion %v consumes the input stream (%s in %s) with no depth bound: the recursive call here is not dominated by a comparison of a depth counter that the call increments; nesting depth is chosen by the peer, so the goroutine stack (and the process) can be exhausted", names, what, fnKey(reader)), nil)
+		}
+	}
+	r.RequireRole("cycle")
+	if p.Control {
+		r.ExpectControl("zzVerifControlRecurse")
+	}
+}
+
+// depthGuarded: the call passes `p + k` (k > 0) for an integer parameter p of
+// the caller, and a comparison of p (or p+k) with a constant dominates the
+// call on one of its edges.
+func depthGuarded(f *ssa.Function, site ssa.CallInstruction) bool {
+	params := map[ssa.Value]bool{}
+	for _, p := range f.Params {
+		if b, ok := p.Type().Underlying().(*types.Basic); ok && b.Info()&types.IsInteger != 0 {
+			params[p] = true
+		}
+	}
+	if len(params) == 0 {
+		return false
+	}
+	for _, a := range site.Common().Args {
+		bin, ok := a.(*ssa.BinOp)
+		if !ok || (bin.Op != token.ADD && bin.Op != token.SUB) {
+			continue
+		}
+		var prm ssa.Value
+		if params[bin.X] {
+			if _, ok := constInt(bin.Y); ok {
+				prm = bin.X
+			}
+		} else if params[bin.Y] && bin.Op == token.ADD {
+			if _, ok := constInt(bin.X); ok {
+				prm = bin.Y
+			}
+		}
+		if prm == nil {
+			continue
+		}
+		// a dominating comparison of prm (or the incremented value) with a constant
+		for _, cand := range []ssa.Value{prm, bin} {
+			for _, ref := range *cand.Referrers() {
+				cmp, ok := ref.(*ssa.BinOp)
+				if !ok {
+					continue
+				}
+				switch cmp.Op {
+				case token.LSS, token.LEQ, token.GTR, token.GEQ, token.EQL, token.NEQ:
+				default:
+					continue
+				}
+				other := cmp.Y
+				if other == cand {
+					other = cmp.X
+				}
+				if _, isConst := constInt(other); !isConst {
+					if _, isGlobalLoad := other.(*ssa.UnOp); !isGlobalLoad {
+						continue
+					}
+				}
+				for _, r2 := range *cmp.Referrers() {
+					if iff, ok := r2.(*ssa.If); ok {
+						if edgeDominates(iff.Block(), 0, site.Block()) || edgeDominates(iff.Block(), 1, site.Block()) {
+							return true
+						}
+					}
+				}
+			}
+		}
+	}
+	return false
+}
+
+// ---------------------------------------------------------------------------
+// guards: optional pointers of wire structs, constant indexes
+
+func isWireLike(n *types.Named) bool {
+	if n == nil {
+		return false
+	}
+	if isWireStruct(n) {
+		return true
+	}
+	// request roots with custom UnmarshalXML (reportReq)
+	return inModuleType(n) && n.Obj().Name() == "reportReq"
+}
+
+// optionalWirePtr: v is the value of a pointer-typed field of a wire struct.
+func optionalWirePtr(v ssa.Value) (string, bool) {
+	var xt types.Type
+	var idx int
+	switch x := v.(type) {
+	case *ssa.UnOp:
+		fa, ok := x.X.(*ssa.FieldAddr)
+		if x.Op != token.MUL || !ok {
+			return "", false
+		}
+		xt, idx = fa.X.Type(), fa.Field
+	case *ssa.Field:
+		xt, idx = x.X.Type(), x.Field
+	default:
+		return "", false
+	}
+	k, named, ft := fieldKey(xt, idx)
+	if named == nil || !isWireLike(named) {
+		return "", false
+	}
+	if _, ok := ft.Underlying().(*types.Pointer); !ok {
+		return "", false
+	}
+	return k, true
+}
+
+// derefsOf lists the pointer values an instruction dereferences.
+func derefsOf(in ssa.Instruction) []ssa.Value {
+	switch x := in.(type) {
+	case *ssa.FieldAddr:
+		return []ssa.Value{x.X}
+	case *ssa.UnOp:
+		if x.Op == token.MUL {
+			return []ssa.Value{x.X}
+		}
+	case *ssa.Store:
+		return []ssa.Value{x.Addr}
+	}
+	return nil
+}
+
+// mustNonNilParams computes, to a fixpoint, the pointer parameters of module
+// functions that are dereferenced without a dominating nil test.
+func mustNonNilParams(fns []*ssa.Function) map[*ssa.Parameter]ssa.Instruction {
+	out := map[*ssa.Parameter]ssa.Instruction{}
+	tests := map[*ssa.Function][]nilTest{}
+	for _, fn := range fns {
+		tests[fn] = nilTestsOf(fn)
+	}
+	changed := true
+	for changed {
+		changed = false
+		for _, fn := range fns {
+			for _, b := range fn.Blocks {
+				for _, in := range b.Instrs {
+					mark := func(v ssa.Value) {
+						prm, ok := v.(*ssa.Parameter)
+						if !ok || out[prm] != nil {
+							return
+						}
+						if _, isPtr := prm.Type().Underlying().(*types.Pointer); !isPtr {
+							return
+						}
+						if guardedNonNil(tests[fn], prm, b) {
+							return
+						}
+						out[prm] = in
+						changed = true
+					}
+					for _, d := range derefsOf(in) {
+						mark(d)
+					}
+					if site, ok := in.(ssa.CallInstruction); ok {
+						if callee := site.Common().StaticCallee(); callee != nil && len(callee.Blocks) > 0 {
+							for i, a := range site.Common().Args {
+								if i < len(callee.Params) && out[callee.Params[i]] != nil {
+									mark(a)
+								}
+							}
+						}
+					}
+				}
+			}
+		}
+	}
+	return out
+}
+
+func c13Guards(c *Ctx, pr *PropertyRun, prop string, entries []*ssa.Function) {
+	p := c.P
+	r := NewRule(prop, prop+".guards", "every dereference of an optional (pointer) field of a request-decoded wire struct, and every constant index into a slice, is dominated by its guard (E4 OPTIONAL-POINTER-GUARDED, CONST-INDEX-GUARDED)")
+	pr.Rules = append(pr.Rules, r)
+	cg := c.CG()
+	ctl := controlFuncs(p, pkgInternal, "zzVerifControlGuard")
+	seen := cg.Reach(append(append([]*ssa.Function{}, entries...), ctl...), moduleOnly(p))
+	var fns []*ssa.Function
+	for fn := range seen {
+		if p.InModule(fn) && len(fn.Blocks) > 0 {
+			fns = append(fns, fn)
+		}
+	}
+	sort.Slice(fns, func(i, j int) bool { return fnKey(fns[i]) < fnKey(fns[j]) })
+	r.Count("functions", len(fns))
+	must := mustNonNilParams(fns)
+	r.Count("params_dereferenced_unguarded", len(must))
+	for _, fn := range fns {
+		nt := nilTestsOf(fn)
+		lt := lenTestsOf(fn)
+		for _, b := range fn.Blocks {
+			for _, in := range b.Instrs {
+				check := func(v ssa.Value, how string) {
+					k, ok := optionalWirePtr(v)
+					if !ok {
+						return
+					}
+					r.Role("optional-pointer-use")
+					g := guardedNonNil(nt, v, b)
+					r.Ob(g)
+					r.Sample(map[string]interface{}{"function": fnKey(fn), "field": k, "use": how, "guarded": g, "pos": p.instrPos(in)})
+					if !g {
+						r.Violation("nil-deref|"+fnKey(fn)+"|"+k, p.instrPos(in), fmt.Sprintf("optional element %s is dereferenced (%s) in %s without a dominating nil test: a request that omits the element makes the handler panic", k, how, fnKey(fn)), nil)
+					}
+				}
+				for _, d := range derefsOf(in) {
+					check(d, "direct")
+				}
+				if site, ok := in.(ssa.CallInstruction); ok {
+					if callee := site.Common().StaticCallee(); callee != nil && len(callee.Blocks) > 0 {
+						for i, a := range site.Common().Args {
+							if i < len(callee.Params) && must[callee.Params[i]] != nil {
+								check(a, "passed to "+fnKey(callee)+", which dereferences it unconditionally")
+							}
+						}
+					}
+				}
+				// constant index
+				var sl ssa.Value
+				var idxV ssa.Value
+				switch x := in.(type) {
+				case *ssa.IndexAddr:
+					sl, idxV = x.X, x.Index
+				case *ssa.Index:
+					sl, idxV = x.X, x.Index
+				}
+				if sl == nil {
+					continue
+				}
+				if _, isSlice := sl.Type().Underlying().(*types.Slice); !isSlice {
+					if _, isStr := sl.Type().Underlying().(*types.Basic); !isStr {
+						continue // arrays and pointers to arrays are bounds-checked by the compiler's types
+					}
+				}
+				k, isConst := constInt(idxV)
+				if !isConst {
+					continue
+				}
+				r.Role("constant-index")
+				ok, why := knownLongEnough(sl, k)
+				if !ok {
+					ok = guardedIndex(lt, sl, k, b)
+					why = "dominating len test"
+				}
+				r.Ob(ok)
+				r.Sample(map[string]interface{}{"function": fnKey(fn), "index": k, "guard": why, "ok": ok, "pos": p.instrPos(in)})
+				if !ok {
+					r.Violation(fmt.Sprintf("index|%s|%d", fnKey(fn), k), p.instrPos(in), fmt.Sprintf("constant index [%d] in %s is not dominated by a length test that guarantees the element exists", k, fnKey(fn)), nil)
+				}
+			}
+		}
+	}
+	r.RequireRole("optional-pointer-use", "constant-index")
+	if p.Control {
+		r.ExpectControl("zzVerifControlGuard")
+	}
+}
+
+// knownLongEnough: slices whose length is known from their construction.
+func knownLongEnough(sl ssa.Value, idx int64) (bool, string) {
+	switch x := sl.(type) {
+	case *ssa.Slice:
+		if a, ok := x.X.(*ssa.Alloc); ok {
+			if pt, ok := a.Type().Underlying().(*types.Pointer); ok {
+				if arr, ok := pt.Elem().Underlying().(*types.Array); ok && arr.Len() > idx {
+					return true, "slice of a fixed-size array"
+				}
+			}
+		}
+	case *ssa.MakeSlice:
+		if n, ok := constInt(x.Len); ok && n > idx {
+			return true, "make with constant length"
+		}
+	case *ssa.Call:
+		if f := x.Call.StaticCallee(); f != nil {
+			switch fullFnName(f) {
+			case "strings.Split", "strings.SplitN":
+				if idx == 0 {
+					return true, "strings.Split returns at least one element for a non-empty separator"
+				}
+			}
+		}
+	}
+	return false, ""
+}
+
+// ---------------------------------------------------------------------------
+// parse results checked, and before mutation
+
+// parseCalls: the frozen list of fallible parse/decode calls (resolved by
+// full name of the types.Func).
+var parseCalls = map[string]bool{
+	"github.com/emersion/go-webdav/internal.ParseDepth":     true,
+	"github.com/emersion/go-webdav/internal.ParseOverwrite": true,
+	"net/url.Parse": true, "mime.ParseMediaType": true,
+	"(*encoding/xml.Decoder).Decode": true, "(*encoding/xml.Decoder).DecodeElement": true, "(*encoding/xml.Decoder).Token": true,
+	"(*github.com/emersion/go-ical.Decoder).Decode":  true,
+	"(*github.com/emersion/go-vcard.Decoder).Decode": true,
+	"strconv.Atoi": true, "strconv.ParseInt": true, "strconv.ParseUint": true, "strconv.Unquote": true, "strconv.ParseBool": true,
+	"time.Parse": true, "net/http.ParseTime": true,
+	"github.com/emersion/go-webdav/internal.DecodeXMLRequest":       true,
+	"(*github.com/emersion/go-webdav/internal.Prop).Decode":        true,
+	"(*github.com/emersion/go-webdav/internal.RawXMLValue).Decode": true,
+	"(*github.com/emersion/go-webdav/internal.ETag).UnmarshalText": true,
+	"(github.com/emersion/go-webdav.ConditionalMatch).ETag":        true,
+	"(github.com/emersion/go-webdav.ConditionalMatch).MatchETag":   true,
+}
+
+var mutatingBackend = map[string]bool{
+	"PutCalendarObject": true, "PutAddressObject": true, "CreateCalendar": true, "CreateAddressBook": true,
+	"DeleteCalendarObject": true, "DeleteAddressObject": true, "DeleteAddressBook": true,
+	"Create": true, "RemoveAll": true, "Mkdir": true, "Copy": true, "Move": true,
+}
+
+func isMutatingBackendCall(site ssa.CallInstruction) bool {
+	cc := site.Common()
+	if !cc.IsInvoke() || !mutatingBackend[cc.Method.Name()] {
+		return false
+	}
+	n := namedOf(cc.Value.Type())
+	if n == nil || !inModuleType(n) {
+		return false
+	}
+	return n.Obj().Name() == "Backend" || n.Obj().Name() == "FileSystem"
+}
+
+// exemptUnchecked: call sites whose error is deliberately not tested, each
+// with the reason; keyed by function + callee.
+var exemptUnchecked = map[string]string{
+	"internal.isContentXML|mime.ParseMediaType": "on error the media type is the empty string, which selects the 'not XML' branch (the request is then refused or treated as body-less); the value is only compared with constants",
+}
+
+func c13ParseChecked(c *Ctx, pr *PropertyRun) {
+	p := c.P
+	r := NewRule("C13", "C13.parse-checked", "the error of every fallible parse/decode of request data is tested before the parsed value is used, and in functions that call a mutating backend operation these tests dominate it (E4 RESULT-CHECKED, parse-before-mutate)")
+	pr.Rules = append(pr.Rules, r)
+	cg := c.CG()
+	ctl := controlFuncs(p, pkgInternal, "zzVerifControlParse")
+	seen := cg.Reach(append(p.serverEntries(), ctl...), moduleOnly(p))
+	var fns []*ssa.Function
+	for fn := range seen {
+		if p.InModule(fn) && len(fn.Blocks) > 0 {
+			fns = append(fns, fn)
+		}
+	}
+	sort.Slice(fns, func(i, j int) bool { return fnKey(fns[i]) < fnKey(fns[j]) })
+	for _, fn := range fns {
+		var parses []*ssa.Call
+		var muts []ssa.CallInstruction
+		eachCall(fn, func(site ssa.CallInstruction) {
+			if isMutatingBackendCall(site) {
+				muts = append(muts, site)
+			}
+			call, ok := site.(*ssa.Call)
+			if !ok {
+				return
+			}
+			if parseCalls[calleeName(call.Common())] {
+				parses = append(parses, call)
+			}
+		})
+		for _, call := range parses {
+			name := calleeName(call.Common())
+			r.Role("parse-call")
+			if why, ok := exemptUnchecked[fnKey(fn)+"|"+name]; ok {
+				r.Note("exempt %s in %s: %s", name, fnKey(fn), why)
+				continue
+			}
+			errVal, bad, dropped := uncheckedUses(call)
+			ok := !dropped && len(bad) == 0
+			r.Ob(ok)
+			r.Sample(map[string]interface{}{"function": fnKey(fn), "parse": name, "error_checked_before_use": ok, "pos": p.instrPos(call)})
+			if dropped {
+				r.Violation("dropped|"+fnKey(fn)+"|"+name, p.instrPos(call), fmt.Sprintf("the error of %s is discarded in %s: malformed input is accepted as if it were valid", name, fnKey(fn)), nil)
+			} else if len(bad) > 0 {
+				r.Violation("unchecked|"+fnKey(fn)+"|"+name, p.instrPos(bad[0]), fmt.Sprintf("a result of %s is used in %s on a path where its error has not been tested", name, fnKey(fn)), nil)
+			}
+			for _, m := range muts {
+				r.Role("parse-before-mutate")
+				dom := errVal != nil && failureCannotReach(errVal, call.Block(), m.Block())
+				r.Ob(dom)
+				if !dom {
+					r.Violation("mutate-before-parse|"+fnKey(fn)+"|"+name+"|"+m.Common().Method.Name(), p.instrPos(m), fmt.Sprintf("backend.%s is reached in %s on a path where %s has not succeeded: a malformed request may create, update or delete", m.Common().Method.Name(), fnKey(fn), name), nil)
+				}
+			}
+		}
+	}
+	r.RequireRole("parse-call", "parse-before-mutate")
+	if p.Control {
+		r.ExpectControl("zzVerifControlParse")
+	}
+}
+
+func c13ReqErrors(c *Ctx, pr *PropertyRun) {}
